@@ -29,6 +29,7 @@ type pskCase struct {
 	MDKey     string   `json:"metadata_key"` // "" = metadata without an authorization entry
 	ValuesHex []string `json:"values_hex"`
 	Values    []string `json:"values_text"`
+	Order     int64    `json:"-"`
 }
 
 func hexAll(ss []string) []string {
@@ -293,6 +294,9 @@ func runPSK(r *core.Report, thorough bool) {
 		}
 	}
 	// one authenticator per configuration, shared by the workers (it is immutable after construction)
+	for i, c := range cases {
+		c.Order = int64(i)
+	}
 	r.Parallel(len(cases), func(i int) { evalPSK(r, cases[i]) })
 }
 
@@ -317,7 +321,7 @@ func evalPSK(r *core.Report, c *pskCase) {
 	vals := unhexAll(c.ValuesHex)
 	a, err := presharedkey.NewPresharedKeyAuthenticator(keys)
 	if err != nil {
-		r.Violate("psk-constructor-rejects-keys", err.Error(), replayCase{Kind: "psk", PSK: c})
+		violate(c.Order, "psk-constructor-rejects-keys", err.Error(), replayCase{Kind: "psk", PSK: c})
 		return
 	}
 	ctx := context.Background()
@@ -352,26 +356,26 @@ func evalPSK(r *core.Report, c *pskCase) {
 	}
 	switch {
 	case got && !want && !wf:
-		r.Violate("psk-accepts-malformed-header", desc("accepted without a well-formed bearer header"), rc)
+		violate(c.Order, "psk-accepts-malformed-header", desc("accepted without a well-formed bearer header"), rc)
 	case got && !want:
-		r.Violate("psk-accepts-non-key/"+c.TokenKind, desc("accepted a token that is not a configured key"), rc)
+		violate(c.Order, "psk-accepts-non-key/"+c.TokenKind, desc("accepted a token that is not a configured key"), rc)
 	case !got && want:
-		r.Violate("psk-rejects-configured-key", desc("rejected a configured key presented in a well-formed bearer header"), rc)
+		violate(c.Order, "psk-rejects-configured-key", desc("rejected a configured key presented in a well-formed bearer header"), rc)
 	}
 	if (merr == nil) != got {
-		r.Violate("middleware-disagrees-with-authenticator", desc(fmt.Sprintf("AuthFunc err=%v", merr)), rc)
+		violate(c.Order, "middleware-disagrees-with-authenticator", desc(fmt.Sprintf("AuthFunc err=%v", merr)), rc)
 	}
 	if got {
 		if claims == nil || claims.Subject != "" || claims.ClientID != "" {
-			r.Violate("psk-claims-not-anonymous", desc(fmt.Sprintf("claims=%+v", claims)), rc)
+			violate(c.Order, "psk-claims-not-anonymous", desc(fmt.Sprintf("claims=%+v", claims)), rc)
 		}
 		if merr == nil {
 			if mc, ok := authclaims.AuthClaimsFromContext(mctx); !ok || mc == nil || mc.Subject != "" {
-				r.Violate("middleware-drops-claims", desc("AuthFunc context carries no claims"), rc)
+				violate(c.Order, "middleware-drops-claims", desc("AuthFunc context carries no claims"), rc)
 			}
 		}
 	} else if merr != nil && mctx != nil {
-		r.Violate("middleware-returns-context-on-reject", desc("AuthFunc returned a context together with an error"), rc)
+		violate(c.Order, "middleware-returns-context-on-reject", desc("AuthFunc returned a context together with an error"), rc)
 	}
 	if c.TokenKind == "exact" && c.Form == "bearer t" || c.TokenKind == "near" && c.Form == "Bearer t" && len(c.KeysHex) == 1 {
 		sampleOnce(r, "psk/"+c.TokenKind, map[string]any{"kind": "psk", "keys": c.Keys, "metadata": map[string]any{c.MDKey: c.Values}, "reference_accept": want, "authenticate_accept": got})
